@@ -80,12 +80,19 @@ pub fn dead_code_elimination<'a>(
                     })
                 }
 
-                Expr::Match(_, alts) if alts.len() == 1 => match &alts[0].pattern {
+                Expr::Match(scrutinee, alts) if alts.len() == 1 => match &alts[0].pattern {
                     Pattern::Record { fields, .. } => {
-                        if fields
-                            .iter()
-                            .map(|(x, y)| y.as_ref().unwrap_or(&x.name))
-                            .any(|field_bind| self.is_used(&field_bind))
+                        // Only the load of a variable is known to be free of effects, any other
+                        // scrutinee must still be evaluated
+                        let may_have_effect = match scrutinee {
+                            Expr::Ident(..) => false,
+                            _ => true,
+                        };
+                        if may_have_effect
+                            || fields
+                                .iter()
+                                .map(|(x, y)| y.as_ref().unwrap_or(&x.name))
+                                .any(|field_bind| self.is_used(&field_bind))
                         {
                             walk_expr_alloc(self, expr)
                         } else {
@@ -186,6 +193,19 @@ impl<'a> DepGraph<'a> {
         }
     }
 
+    /// Marks every binding (that is not a closure) enclosing the current expression as used
+    /// since evaluating the current expression has an effect
+    fn mark_effect(&mut self) {
+        for window in self
+            .currents
+            .windows(2)
+            .rev()
+            .take_while(|t| t[1].0 == BindType::Expr)
+        {
+            self.graph.add_edge(window[0].1, window[1].1, ());
+        }
+    }
+
     pub fn cycles<'s>(
         &'s self,
     ) -> impl Iterator<Item = impl Iterator<Item = &'a SymbolRef> + 's> + 's {
@@ -257,15 +277,13 @@ impl<'e> Visitor<'e, 'e> for DepGraph<'e> {
                 None
             }
 
-            Expr::Call(Expr::Ident(id, ..), ..) if !id.name.as_str().starts_with('#') => {
-                for window in self
-                    .currents
-                    .windows(2)
-                    .rev()
-                    .take_while(|t| t[1].0 == BindType::Expr)
-                {
-                    self.graph.add_edge(window[0].1, window[1].1, ());
-                }
+            // Any call may have an effect (or fail), whether the callee is named directly or is
+            // reached through a projection, another call, ... Only the builtin `#` primitives
+            // are known to be free of effects
+            Expr::Call(f, ..)
+                if !matches!(f, Expr::Ident(id, ..) if id.name.as_str().starts_with('#')) =>
+            {
+                self.mark_effect();
                 walk_expr(self, expr);
                 None
             }
@@ -313,12 +331,24 @@ impl<'e> Visitor<'e, 'e> for DepGraph<'e> {
                     self_.visit_expr(scrutinee);
                 });
 
-                if alts.iter().any(|alt| match alt.pattern {
+                let current = self.currents.last().unwrap().1;
+
+                let refutable = alts.iter().any(|alt| match alt.pattern {
                     Pattern::Constructor(..) | Pattern::Literal(..) => true,
                     _ => false,
-                }) {
-                    let current = self.currents.last().unwrap().1;
+                });
+                if refutable {
                     self.graph.add_edge(current, scrutinee_id, ());
+
+                    // Without an alternative that matches everything the match may fail which
+                    // must not be optimized away
+                    let has_catch_all = alts.iter().any(|alt| match alt.pattern {
+                        Pattern::Ident(..) => true,
+                        _ => false,
+                    });
+                    if !has_catch_all {
+                        self.mark_effect();
+                    }
                 }
 
                 for alt in *alts {
